@@ -1825,12 +1825,25 @@ func marshalOpenSSHPrivateKey(key crypto.PrivateKey, comment string, encrypt ope
 		}
 		w.PubKey = Marshal(pubKey)
 
+		if len(k.Primes) != 2 {
+			return nil, errors.New("ssh: only two-prime RSA keys can be written in OpenSSH format")
+		}
+		// Precomputed is optional (see crypto/rsa): a key assembled from its
+		// numbers without calling Precompute has no Qinv.
+		iqmp := k.Precomputed.Qinv
+		if iqmp == nil {
+			iqmp = new(big.Int).ModInverse(k.Primes[1], k.Primes[0])
+			if iqmp == nil {
+				return nil, errors.New("ssh: invalid RSA private key")
+			}
+		}
+
 		// Marshal private key.
 		key := openSSHRSAPrivateKey{
 			N:       k.PublicKey.N,
 			E:       E,
 			D:       k.D,
-			Iqmp:    k.Precomputed.Qinv,
+			Iqmp:    iqmp,
 			P:       k.Primes[0],
 			Q:       k.Primes[1],
 			Comment: comment,
